@@ -93,7 +93,8 @@ pub fn clip_scene(max_dim: u32, max_tris: usize, color_only_ok: bool) -> BoxedSt
                 Just((bw, bh)),
                 span(bw),
                 span(bh),
-                proptest::collection::vec((clip_tri(), [-1.0f32..=1.0, -1.0f32..=1.0, -1.0f32..=1.0]), 1..=max_tris),
+                // clip space is homogeneous: a triangle scaled by 2^k covers the same pixels with reciprocal depth scaled by 2^-k
+                proptest::collection::vec(((clip_tri(), prop_oneof![6 => Just(0i32), 1 => Just(-26i32), 1 => Just(24i32), 2 => -30i32..=30]).prop_map(|(t, k)| t.map(|v| v.map(|c| c * 2f32.powi(k)))), [-1.0f32..=1.0, -1.0f32..=1.0, -1.0f32..=1.0]), 1..=max_tris),
                 any::<bool>(),
                 target_kind(color_only_ok),
                 bg_depth(),
